@@ -724,14 +724,19 @@ func EvalFunction(env *Zlisp, name string, args []Sexp) (Sexp, error) {
 	orig := &SexpArray{Val: args}
 	sfun := env.MakeFunction("evalGeneratedFunction", 0, false, newfunc, orig)
 
+	// a failed evaluation must leave the interpreter as it found it,
+	// also for a caller that handles the error and carries on.
+	callState := env.captureControlState()
 	err = env.CallFunction(sfun, 0)
 	if err != nil {
+		env.restoreControlState(callState)
 		return SexpNull, err
 	}
 
 	var resultSexp Sexp
 	resultSexp, err = env.Run()
 	if err != nil {
+		env.restoreControlState(callState)
 		return SexpNull, err
 	}
 
